@@ -32,6 +32,12 @@ def run(prop, tier, seed):
         for kind in (('cache', 'fanout') if tier == 'thorough' or rng.random() < 0.35 else ('cache',)):
             tid += 1
             jobs.append((kind, c, seed + tid, tid))
+    # more than 100 file-backed items (check walks them in pages): single damages and a few pairs
+    big = [[d] for d in ('delete-file', 'truncate-file', 'extend-file', 'add-file-existing-dir', 'count+1')] + [['delete-file', 'delete-file'], ['delete-file', 'size-3', 'truncate-zero']]
+    for c in (big if tier == 'thorough' else big[:2] + big[-2:]):
+        for kind in ('cache-large', 'fanout-large'):
+            tid += 1
+            jobs.append((kind, c, seed + tid, tid))
     traces = pmap(_run, jobs, procs=14)
     out.traces = len(traces)
     out.events = len(traces)
